@@ -576,7 +576,7 @@ type docOpts struct {
 	minUnknown  int
 	avoidHosts  map[string]bool // hosts that must not appear as (alias of) keys
 	entryKeys   []string        // candidate keys (pool addresses and their other forms)
-	emptyCreds  bool            // allow "credsStore": ""
+	emptyCreds  bool            // force "credsStore": ""
 	bigDocument bool
 }
 
@@ -619,7 +619,12 @@ func genDoc(rng *rand.Rand, o docOpts) caseDoc {
 		nu++
 	}
 	d.UnknownTop = nu
-	if !o.noHelpers {
+	if o.emptyCreds {
+		// "credsStore": "" — docker treats it as absent; the library drops the key on save
+		doc["credsStore"] = ""
+		d.HasHelpers = true
+		shape = append(shape, "emptyCredsStore")
+	} else if !o.noHelpers {
 		switch rng.IntN(8) {
 		case 0:
 			doc["credsStore"] = "desktop"
@@ -631,12 +636,6 @@ func genDoc(rng *rand.Rand, o docOpts) caseDoc {
 			doc["credsStore"] = "osxkeychain"
 			doc["credHelpers"] = map[string]any{}
 			d.HasHelpers = true
-		case 3:
-			if o.emptyCreds {
-				doc["credsStore"] = ""
-				d.HasHelpers = true
-				shape = append(shape, "emptyCredsStore")
-			}
 		}
 	}
 	authsMode := rng.IntN(20)
